@@ -24,6 +24,7 @@ EXTENDS Abs
 
 CONSTANTS Kind,      \* one of the six kinds above
           Cap0,      \* capacity of the (first) group
+          NInit,     \* bounded kinds: number of children given at construction (from_iter; then Cap0 = NInit), else 0
           NC,        \* children 1..NC, pushed in this order
           Budget,    \* MAX of poll_inner_no_remove (61 in the code)
           NW,        \* task wakers 1..NW
@@ -44,26 +45,12 @@ IsOrd    == Kind \in {"fob", "fo"}
 IsMrg    == Kind \in {"mb", "mu"}
 Children == 1..NC
 
-Key(b, i) == b * 100 + i
+Key(b, i) == b * 100000 + i
 NewGrp(cap) == [cap |-> cap, sl |-> [i \in 0..cap-1 |-> 0], free |-> [j \in 1..cap |-> j - 1],
                 q |-> <<>>, fl |-> [i \in 0..cap-1 |-> FALSE], reg |-> 0]
 Filled(g) == Cardinality({i \in DOMAIN g.sl : g.sl[i] # 0})
 RemoveAt(seq, k) == [j \in 1..Len(seq)-1 |-> IF j < k THEN seq[j] ELSE seq[j+1]]
 SetToSeq(S) == CHOOSE f \in [1..Cardinality(S) -> S] : \A a, b \in 1..Cardinality(S) : a < b => f[a] < f[b]
-
-Init0 == [ groups |-> <<1>>, blk |-> <<NewGrp(Cap0)>>, cursor |-> 0, rem |-> 0,
-           cs |-> [c \in Children |-> "unborn"], loc |-> [c \in Children |-> <<0, 0>>],
-           np |-> [c \in Children |-> 0], ni |-> [c \in Children |-> 0], nextc |-> 1,
-           pc |-> "idle", pw |-> 0, cnt |-> 0, iter |-> 0, cb |-> 1, ci |-> 0, cc |-> 0, rk |-> 0,
-           parked |-> {}, idx |-> [c \in Children |-> 0], inc |-> 0, outc |-> 0,
-           out |-> {}, nw |-> 0 ]
-
-Init == /\ st = Init0
-        /\ m = Run(Fresh, << [e |-> "reset", kind |-> Kind, cap |-> Cap0, run |-> 1], [e |-> "new", res |-> "ok"] >>)
-        /\ hist = <<>>
-
-Emit(evs) == /\ m' = Run(m, evs)
-             /\ hist' = IF GenMode THEN hist \o evs ELSE hist
 
 \* ----------------------------------------------------------------- observers, as the code computes them
 SumFilled(s) == LET RECURSIVE F(_) F(k) == IF k = 0 THEN 0 ELSE Filled(s.blk[s.groups[k]]) + F(k - 1) IN F(Len(s.groups))
@@ -80,6 +67,30 @@ ObsEv(s) ==
       term |-> IF coll THEN len = 0 ELSE FALSE,
       cap |-> IF Kind = "fub" THEN s.blk[1].cap ELSE -1,
       lo |-> IF coll THEN len ELSE 0, hi |-> IF coll THEN len ELSE -1, rem |-> IF coll THEN len ELSE 0]
+
+InitGrp == IF NInit = 0 THEN NewGrp(Cap0)
+           ELSE [cap |-> NInit, sl |-> [i \in 0..NInit-1 |-> i + 1], free |-> <<>>,
+                 q |-> [j \in 1..NInit |-> j - 1], fl |-> [i \in 0..NInit-1 |-> TRUE], reg |-> 0]
+Init0 == [ groups |-> <<1>>, blk |-> <<InitGrp>>, cursor |-> 0, rem |-> 0,
+           cs |-> [c \in Children |-> IF c <= NInit THEN "held" ELSE "unborn"],
+           loc |-> [c \in Children |-> IF c <= NInit THEN <<1, c - 1>> ELSE <<0, 0>>],
+           np |-> [c \in Children |-> 0], ni |-> [c \in Children |-> 0], nextc |-> NInit + 1,
+           pc |-> "idle", pw |-> 0, cnt |-> 0, iter |-> 0, cb |-> 1, ci |-> 0, cc |-> 0, rk |-> 0,
+           parked |-> {}, idx |-> [c \in Children |-> IF c <= NInit THEN c - 1 ELSE 0], inc |-> NInit, outc |-> 0,
+           out |-> {}, nw |-> 0 ]
+
+InitEvs == <<[e |-> "reset", kind |-> Kind, cap |-> IF NInit = 0 THEN Cap0 ELSE NInit, run |-> 1]>>
+           \o [c \in 1..NInit |-> [e |-> "push_b", c |-> c]]
+           \o <<[e |-> "new", res |-> "ok", al |-> 0]>>
+           \o [c \in 1..NInit |-> [e |-> "push", c |-> c, how |-> "init", res |-> "ok", same |-> TRUE, al |-> 0]]
+           \o <<ObsEv(Init0)>>
+
+Init == /\ st = Init0
+        /\ m = Run(Fresh, InitEvs)
+        /\ hist = IF GenMode THEN InitEvs ELSE <<>>
+
+Emit(evs) == /\ m' = Run(m, evs)
+             /\ hist' = IF GenMode THEN hist \o evs ELSE hist
 
 \* ----------------------------------------------------------------- child wakers
 \* invocation of the waker of slot (b, i): flag swap, enqueue, notify
@@ -263,7 +274,7 @@ QueueMatchesFlags == \A b \in DOMAIN st.blk : LET g == st.blk[b] IN
 FreeListSound == \A b \in DOMAIN st.blk : LET g == st.blk[b] IN
                    /\ \A j \in 1..Len(g.free) : g.sl[g.free[j]] = 0
                    /\ Len(g.free) + Filled(g) = g.cap
-RemIsHeld == Kind \in {"fu", "fo"} => st.rem = Cardinality({c \in Children : st.cs[c] = "held"})
+RemIsHeld == (Kind \in {"fu", "fo"} /\ st.pc \notin {"dead", "end"}) => st.rem = Cardinality({c \in Children : st.cs[c] = "held"})
 LocSound == \A c \in Children : st.cs[c] = "held" => st.blk[st.loc[c][1]].sl[st.loc[c][2]] = c
 \* a held child that is owed a poll is queued (or is the one being polled)
 ObligQueued == \A c \in Children :
